@@ -8,7 +8,7 @@ PLAN = dict(
           "(roundtrip), at least two successful calls (stream); distinct by fingerprint of the case."),
     assumptions=TRUSTED + ["On a failed call the reader position is unspecified and not compared"],
     runs=[
-        dict(name="exh", run="^(TestExhaustiveHeads|TestExhaustiveRoundTripBoundaries|TestCorpus)$"),
+        dict(name="exh", run="^(TestExhaustiveHeads|TestExhaustiveRoundTripBoundaries|TestExhaustiveCodePoints|TestCorpus)$"),
         dict(name="rt", run="^TestPropRoundTrip$", checks=(3000, 300000), shards=(1, 4)),
         dict(name="stream", run="^TestPropStream$", checks=(5000, 1000000), shards=(1, 16)),
         dict(name="resume", run="^TestPropResume$", checks=(5000, 500000), shards=(1, 8)),
